@@ -51,9 +51,9 @@ def hessian(kind, n):
 HKINDS = ["zero", "I", "-I", "diag+-", "rank1", "indef"]
 
 
-def grads(n, thin):
+def grads(n, thin, extra=()):
     if not thin:
-        return list(itertools.product(GCOMP, repeat=n))
+        return list(itertools.product(list(GCOMP) + list(extra), repeat=n))
     base = list(itertools.product([0.0, 1.0, -1.0], repeat=n))
     extra = []
     for i in range(n):
@@ -122,7 +122,9 @@ def instances(root):
     fn, n, bp, tier = root["fn"], root["n"], root["bp"], root.get("tier", "quick")
     thin = n >= 3
     very_thin = n >= 4
-    gl = grads(n, thin)
+    # the geometry solvers also get a mid-range component: with a non-zero constant term the outcome depends on the
+    # ratio gradient*length/constant, which the powers of two alone jump over
+    gl = grads(n, thin, extra=(6.0, -6.0) if fn in ("spider", "cauchy") and n <= 2 else ())
     if very_thin:
         gl = gl[:: max(1, len(gl) // 24)]
     for (d, gs) in scalings(thin):
